@@ -35,3 +35,31 @@ Definition check_case (c : prog * list op * obs) : bool :=
   | ErrRecursive n => Nat.eqb (o_tag o) 2 && oname_eqb (o_rep o) (Some n)
   | OutOfStack => false
   end.
+
+(* resuming: the state observed on the real program before a run that succeeds after earlier runs failed (the finished commands and
+   their results), the results afterwards and the execute entries / exits logged during that last run *)
+Definition check_resume (c : prog * list (name * Z) * list (name * Z) * list (name * nat) * list (name * nat)) : bool :=
+  let '(P, memo0, vals, enters, exits) := c in
+  let fuel := S (S (length P)) in
+  match run_program Fh fuel P {| memo := memo0; trace := [] |} with
+  | Ok s =>
+      Nat.eqb (length vals) (length P)
+      && forallb (fun nv => match get s (fst nv) with Some w => Z.eqb (snd nv) w | None => false end) vals
+      && forallb (fun nk => Nat.eqb (count_ev (Enter (fst nk)) (trace s)) (snd nk)) enters
+      && forallb (fun nk => Nat.eqb (count_ev (Exit (fst nk)) (trace s)) (snd nk)) exits
+  | _ => false
+  end.
+
+(* a run in which the commands `flaky` fail: the finished commands and their results the real program is left with, and the
+   command whose execute raised *)
+From MP Require Import Model.SchedFail.
+Definition check_failed (c : prog * list name * list (name * Z) * name) : bool :=
+  let '(P, flaky, memo_after, failed) := c in
+  let fuel := S (S (length P)) in
+  let Fo := fun c vs => if mem (nm c) flaky then None else Some (Fh c vs) in
+  match run_programf Fo fuel P [] with
+  | FFailed m k =>
+      Nat.eqb k failed && Nat.eqb (length m) (length memo_after)
+      && forallb (fun nv => match assoc m (fst nv) with Some w => Z.eqb (snd nv) w | None => false end) memo_after
+  | _ => false
+  end.
